@@ -591,4 +591,20 @@ def r8(F, R):
     R.floor(2)
 
 
-RULES = [("R1", r1, None), ("R2", r2, None), ("R3", r3, None), ("R4", r4, None), ("R5", r5, None), ("R6", r6, None), ("R7", r7_clone, None), ("R8", r8, None)]
+def r9_span_levels(F, R):
+    """The spans the attribution rests on (the scenario span carrying the id; the step / hook spans whose closing is waited for) are created
+    at `Level::ERROR`, all of them: a user's filter that drops INFO / WARN spans (a legal configuration) must not drop them — without the
+    scenario span every log is tagged `unknown` and broadcast to all running scenarios."""
+    import json
+    metas = [(k, b) for k, b in F.bodies.items() if b.crate == "cucumber" and k.startswith("tracing::") and k.endswith("::META") and "Kind::SPAN" in json.dumps(b.blocks)]
+    if len(metas) < 3:
+        raise Unverifiable(f"span call-site metadata of the tracing integration: {len(metas)}")
+    for k, b in metas:
+        lv = sorted(set(re.findall(r"Level::(\w+)", json.dumps(b.blocks))))
+        fn = re.sub(r"::__CALLSITE.*$", "", k).rsplit("::", 1)[-1]
+        R.check(lv == ["ERROR"], f"span-level/{fn}", b, "created at Level::ERROR", f"the span created in `{fn}` has level {lv} (expected ERROR like its siblings): a filter stricter than that "
+                f"level disables it — logs lose their scenario id and are broadcast to every running scenario")
+    R.floor(3)
+
+
+RULES = [("R1", r1, None), ("R2", r2, None), ("R3", r3, None), ("R4", r4, None), ("R5", r5, None), ("R6", r6, None), ("R7", r7_clone, None), ("R8", r8, None), ("R9", r9_span_levels, None)]
